@@ -89,6 +89,10 @@ def cases(tier, seed, i, n):
                                     # is, for the client, not there yet - the statement does not say which clock counts.)
                                     yield dict(pre=pre, sc=sc, end=end, at=at, args=APP_CLOSE_ARGS[k % len(APP_CLOSE_ARGS)],
                                                sends=sends, ct=2.0, seg='coalesced', slow=['text', 5.0])
+                            if len(pre) <= 1 and sc in ('reply-between', 'reply-braces') and at in ('text', 'ready', 'poll#0') and sends in ('every', 'text'):
+                                # compressed connection; sends after close() are refused (and with 'every' there are plenty)
+                                yield dict(pre=pre, sc=sc, end=end, at=at, args=APP_CLOSE_ARGS[k % len(APP_CLOSE_ARGS)],
+                                           sends=sends, ct=None, seg=('coalesced', 'perframe')[k % 2], z=True)
                             if len(pre) <= 1 and at == 'never' and sc.startswith('first') and sends in ('every', 'none'):
                                 # the application takes 1.5 poll intervals to handle Closing: nothing - no Poll at
                                 # which it could still send, no timeout - comes between that event and the echo
@@ -115,6 +119,15 @@ def run_case(case, acc):
     body = b''
     truth = []
     between = []
+    zpeer = None
+    if case.get('z'):
+        # a connection with permessage-deflate (context takeover): what the server sends between the two Close frames
+        # refers back to what it sent before the application closed
+        from ..ref import deflate_peer
+        zpeer = deflate_peer.Peer()
+        ztext = b'context the later messages refer to, context the later messages refer to'
+        body += F(1, zpeer.compress(ztext), rsv=4)
+        truth.append(('text', ztext.decode()))
     for p in case['pre']:
         body += PRE[p][0]
         truth += PRE[p][1]
@@ -134,6 +147,11 @@ def run_case(case, acc):
         scode, sreason = sc[1], sc[2]
         steps.append(('await_close',))
         for j in range(sc[3]):
+            if zpeer is not None:
+                msg = b'between%d: context the later messages refer to' % j
+                steps.append(('raw', F(1, zpeer.compress(msg), rsv=4)))
+                between.append(('text', msg.decode()))
+                continue
             steps.append(('raw', F(1, b'between%d' % j)))
             between.append(('text', 'between%d' % j))
         steps.append(('raw', F(8, refws.close_payload(scode, sreason))))
@@ -158,7 +176,7 @@ def run_case(case, acc):
             cuts.append(off)
     ct = case['ct']
     ws0 = None
-    if (len(case['pre']) + len(case['at']) + len(case['sc'])) % 4 == 0:
+    if (len(case['pre']) + len(case['at']) + len(case['sc'])) % 4 == 0 and not case.get('z'):
         # a previous connection on the same object that ended in the middle of its own closing handshake
         w0 = H.World(H.hs_server([('raw', F(1, b'prev'))]))
         r0 = H.drive(w0, connect_kwargs=dict(ping_rate=0, poll=1.0, close_timeout=ct), policy=H.TablePolicy({'text': [['close', 1001, 'previous']]}))
@@ -174,13 +192,14 @@ def run_case(case, acc):
         # the peer tore the connection down as soon as it had sent what it had to send: shutdown() fails
         # (ENOTCONN / ECONNRESET); the descriptor must be released all the same
         faults[('shutdown', 0)] = case['shut']
-    w = H.World(H.hs_server(steps), cuts=cuts, horizon=8.0 if ct else 0.0, faults=faults)
+    w = H.World(H.hs_server(steps, dict(extra=[('Sec-WebSocket-Extensions', 'permessage-deflate')]) if case.get('z') else None),
+                cuts=cuts, horizon=8.0 if ct else 0.0, faults=faults)
     if case.get('cfault'):
         w.frame_faults = {8: case['cfault']}
     ckw = dict(ping_rate=0, poll=1.0, close_timeout=ct)
     if case.get('pt'):
         ckw.update(ping_rate=1.0, ping_timeout=case['pt'])
-    run = H.drive(w, ws=ws0, connect_kwargs=ckw, policy=H.TablePolicy(table))
+    run = H.drive(w, ws=ws0, ws_kwargs=dict(compress=True) if case.get('z') else None, connect_kwargs=ckw, policy=H.TablePolicy(table))
     if case.get('slow'):
         acc.count2('oracle', 'slow_handler_runs')
     if case.get('cfault'):
@@ -244,7 +263,7 @@ def judge(case, run, w, truth, between, scode, sreason, acc):
         key = monitors.close_discipline(frames)
     if key is None:
         for f in frames:
-            pr = refws.frame_problems(f)
+            pr = refws.frame_problems(f, compression=bool(case.get('z')))
             if pr:
                 key = 'client-frame-invalid:' + pr[0]
     # locate the first Close write in the op log
